@@ -70,4 +70,14 @@ theorem argument_mapping : Facts.precompileMsgLiterals = expectedLiterals := by 
 theorem balances_follow_the_bank :
     Facts.precompileBalanceSync.all (fun p => p.2 == "sync") = true := Haqq.SDB.precompiles_sync.1
 
+/-- the validator / validators queries copy operator, jailed flag, status, tokens and shares straight out of the module's
+    validator, whatever its status (the two query literals; the third is the all-zero default) -/
+theorem validator_queries_copy_the_module : Facts.stakingValidatorInfoFields =
+    [("DelegatorShares", "big.NewInt(0)"), ("DelegatorShares", "v.DelegatorShares.BigInt()"), ("DelegatorShares", "v.DelegatorShares.BigInt()"),
+     ("Jailed", "false"), ("Jailed", "v.Jailed"), ("Jailed", "v.Jailed"),
+     ("OperatorAddress", "\"\""), ("OperatorAddress", "v.OperatorAddress"), ("OperatorAddress", "v.OperatorAddress"),
+     ("Status", "uint8(0)"), ("Status", "uint8(stakingtypes.BondStatus_value[v.Status.String()])"),
+     ("Status", "uint8(stakingtypes.BondStatus_value[v.Status.String()])"),
+     ("Tokens", "big.NewInt(0)"), ("Tokens", "v.Tokens.BigInt()"), ("Tokens", "v.Tokens.BigInt()")] := by decide
+
 end Haqq.C16
